@@ -247,6 +247,34 @@ Arguments init_eager {A}. Arguments init_lazy {A}. Arguments step {A}. Arguments
 Arguments fetched {A}. Arguments delivered {A}. Arguments is_append {A}. Arguments is_fetch {A}.
 Arguments is_mat {A}. Arguments fetch_size {A}.
 
+(* ---- a lazily backed frame fed by several tables (DataFrame.from_arrow: converters._RowsIterator) ----
+   The row source walks a sequence of tables; __next__ hands out the next row of the current table and,
+   when that table is used up, moves on to the next table THAT HAS A ROW - empty tables are skipped. *)
+Section Chunked.
+Variable A : Type.
+
+Fixpoint cnext (cs : list (list A)) : option (A * list (list A)) :=
+  match cs with
+  | [] => None                                  (* no table left: StopIteration *)
+  | [] :: t => cnext t                          (* this table has no (more) rows: try the next one *)
+  | (r :: rest) :: t => Some (r, rest :: t)
+  end.
+
+(* everything the source yields, by calling cnext until it stops *)
+Fixpoint cdrain (fuel : nat) (cs : list (list A)) : list A :=
+  match fuel with
+  | O => []
+  | S k => match cnext cs with
+           | None => []
+           | Some (r, cs') => r :: cdrain k cs'
+           end
+  end.
+
+Definition chunk_rows (cs : list (list A)) : list A := cdrain (S (length (concat cs))) cs.
+Definition init_chunked (cs : list (list A)) : st A := init_lazy (chunk_rows cs).
+End Chunked.
+Arguments cnext {A}. Arguments cdrain {A}. Arguments chunk_rows {A}. Arguments init_chunked {A}.
+
 (* ---- renaming rows: the same history on a frame whose rows are the images under f ---- *)
 Section MapRows.
 Variables A B : Type.
@@ -339,3 +367,10 @@ Definition c04_scheck (c : bool * list Z * list (sop Z) * list (sout Z)) : bool 
 Definition c04_sshow (c : bool * list Z * list (sop Z) * list (sout Z)) : list (sout Z) :=
   let '(lz, l, ops, obs) := c in
   snd (srun [if lz then init_lazy l else init_eager l] ops).
+
+(* ---- frames fed by several tables: (tables, history, outputs observed on the implementation) ---- *)
+Definition c04_ccheck (c : list (list Z) * list (op Z) * list (out Z)) : bool :=
+  let '(cs, ops, obs) := c in outs_eqb (snd (run (init_chunked cs) ops)) obs.
+
+Definition c04_cshow (c : list (list Z) * list (op Z) * list (out Z)) : list (out Z) :=
+  let '(cs, ops, obs) := c in snd (run (init_chunked cs) ops).
